@@ -1649,6 +1649,17 @@ def convert_lrelu_to_mul_max(op, arch):
     if ifm is None or ofm is None:
         return op
 
+    # The tensors may carry the shape of a bypassed reshape: the new operators and the intermediate tensors keep the
+    # LeakyRelu's own shape
+    own_shape = op.ofm_shapes[0]
+
+    def set_shapes(new_op):
+        new_op.set_ifm_ofm_shapes()
+        for idx, inp in enumerate(new_op.inputs[:2]):
+            if inp.shape not in ([], [1]):
+                new_op.ifm_shapes[idx] = own_shape
+        new_op.ofm_shapes[0] = own_shape
+
     alpha = np.float32(op.attrs["alpha"])
     use_mul_max = 0 < alpha < 1
     is_converted_prelu = "alpha_scaling" in op.attrs
@@ -1667,12 +1678,13 @@ def convert_lrelu_to_mul_max(op, arch):
         min_op.add_input_tensor(ifm)
         min_op.add_input_tensor(zero)
         mul_ifm = ifm.clone(op.name + "_negative", set_unique=True)
+        mul_ifm.set_all_shapes(own_shape.as_list())
         if alpha < 0 and not is_converted_prelu:
             # For negative alpha that is not from a converted PReLU we need to use
             # int32 Mul below to perform the (negative) alpha scaling
             mul_ifm.dtype = DataType.int32
         min_op.set_output_tensor(mul_ifm)
-        min_op.set_ifm_ofm_shapes()
+        set_shapes(min_op)
         new_op = Op.Add
         op.explicit_scaling = ExplicitScaling(False, shift=[0], multiplier=[1])  # No scaling
         DebugDatabase.add_optimised(op, min_op)
@@ -1704,16 +1716,18 @@ def convert_lrelu_to_mul_max(op, arch):
     alpha_tens = create_const_tensor(op.name + "_alpha_scalar", [1], alpha_dtype, [scalar], quantization=quantization)
     mul_alpha.add_input_tensor(alpha_tens)
     fm_alpha = ofm.clone(op.name + "_alpha", set_unique=True)
+    fm_alpha.set_all_shapes(own_shape.as_list())
     mul_alpha.set_output_tensor(fm_alpha)
-    mul_alpha.set_ifm_ofm_shapes()
+    set_shapes(mul_alpha)
     DebugDatabase.add_optimised(op, mul_alpha)
 
     if not use_mul_max:
         relu_op = Operation(Op.Relu, op.name + "_relu")
         relu_op.add_input_tensor(ifm)
         fm_id = ofm.clone(op.name + "_positive_scaled", set_unique=True)
+        fm_id.set_all_shapes(own_shape.as_list())
         relu_op.set_output_tensor(fm_id)
-        relu_op.set_ifm_ofm_shapes()
+        set_shapes(relu_op)
         DebugDatabase.add_optimised(op, relu_op)
     elif check_quantized_tens_scaling_equal(ifm, ofm):
         # No identity multiplication is needed
@@ -1732,8 +1746,9 @@ def convert_lrelu_to_mul_max(op, arch):
         mul_identity.add_input_tensor(identity_tens)
         # Make sure that fm_id is allocated to a different address than fm_alpha
         fm_id = ofm.clone(op.name + "_id", set_unique=True)
+        fm_id.set_all_shapes(own_shape.as_list())
         mul_identity.set_output_tensor(fm_id)
-        mul_identity.set_ifm_ofm_shapes()
+        set_shapes(mul_identity)
         DebugDatabase.add_optimised(op, mul_identity)
 
     # Convert LeakyRelu to Max, add the results of the multiplication(s) as inputs
@@ -1743,7 +1758,7 @@ def convert_lrelu_to_mul_max(op, arch):
     ifm.consumer_list.remove(op)
     op.add_input_tensor(fm_alpha)
     op.add_input_tensor(fm_id)
-    op.set_ifm_ofm_shapes()
+    set_shapes(op)
 
     DebugDatabase.add_optimised(op, op)
     return op
